@@ -87,7 +87,7 @@ Definition allow_list : list (string * string) :=
     ("config.kubernetes.io/merge-source",
      "kyaml Merge3 filter marker (filters.mergeSourceAnnotation): written and removed inside filters.Merge3.Filter, which krusty never calls");
     ("kustomize.config.k8s.io/id",
-     "exec/fn plugin protocol (plugins/utils.idAnnotation): set before a plugin transformer runs, deleted by UpdateResMapValues when its output is read back; external plugins are outside the modelled build path");
+     "exec/fn plugin protocol (plugins/utils.idAnnotation): set on the copy handed to a plugin transformer, deleted by UpdateResMapValues -> removeIDAnnotation from EVERY resource read back (obligation Gen_plugin_protocol_removed; oracle: builds with an exec function that renames / moves resources)");
     ("kustomize.config.k8s.io/needs-hash",
      "exec/fn plugin protocol (plugins/utils.HashAnnotation): written by plugins, consumed and deleted by UpdateResourceOptions");
     ("kustomize.config.k8s.io/behavior",
@@ -249,3 +249,15 @@ Definition write_site_ok (s : string * string * string * string) : bool :=
    with SetAnnotations, or through a helper that forwards a parameter as the key — writes a constant that is
    removed by krusty.Run (or is allow-listed / not kustomize's), or is one of the reviewed dynamic sites *)
 Definition write_sites_covered_b : bool := forallb write_site_ok gen_annotation_writes.
+
+(* ---------- the plugin protocol keys are allow-listed only because the protocol removes them on every path ---------- *)
+
+(* every allow-listed key of the exec / KRM-function plugin protocol family has a removal that the translator found to
+   be evaluated unconditionally for every resource (gen_plugin_protocol_removals): idAnnotation by
+   UpdateResMapValues -> removeIDAnnotation on every resource read back from the plugin (not only on those whose id
+   the old map already holds), HashAnnotation / BehaviorAnnotation by UpdateResourceOptions *)
+Definition plugin_protocol_removed_b : bool :=
+  forallb (fun k => is_api_version k
+                    || existsb (fun e => let '(key, _, st) := e in String.eqb key k && String.eqb st "unconditional")
+                               gen_plugin_protocol_removals)
+          (filter (fun k => has_prefix "kustomize.config.k8s.io/" k) (map fst allow_list)).
